@@ -100,9 +100,16 @@ func (w *Worker) Race(plan []RaceStep) {
 	w.Cl.SetHoldTopo(true)
 	defer w.Cl.SetHoldTopo(false)
 	w.Log.Add(Event{Ev: "race", Num: len(plan)})
-	for _, st := range plan {
+	for k, st := range plan {
 		if w.Dead {
 			break
+		}
+		if k > 0 {
+			// what the previous step left behind (the goroutines are parked or blocked: nothing moves while we look)
+			rc.drain()
+			ev := w.topoEvent("rstep", rc.tAt, rc.rAt, rc.iter)
+			ev.Txt = plan[k-1].A
+			w.Log.Add(ev)
 		}
 		rc.drain()
 		if w.Cfg.RaceLog {
